@@ -1,5 +1,12 @@
 package refdec
 
+import "sync"
+
+var (
+	genMu    sync.Mutex
+	genCache = map[[4]int][]int{}
+)
+
 // Reference Galois-field arithmetic: carry-less (shift-and-xor) multiplication modulo
 // the primitive polynomial, no tables.  α = 2.
 
@@ -137,4 +144,67 @@ func P929Eval(c []int, x int) int {
 		r = (r*x + v) % 929
 	}
 	return r
+}
+
+// RSCheck computes the k Reed–Solomon check symbols of data (highest first) for the
+// generator with roots alpha^base … alpha^(base+k-1): the remainder of data·x^k
+// modulo the generator, by synthetic division with reference arithmetic.
+func (f Field) RSCheck(data []int, base, k int) []int {
+	key := [4]int{f.Poly, f.Size, base, k}
+	genMu.Lock()
+	gen := genCache[key]
+	if gen == nil {
+		gen = []int{1}
+		for i := 0; i < k; i++ {
+			gen = f.PolyMul(gen, []int{1, f.Pow(2, (base+i)%(f.Size-1))})
+		}
+		genCache[key] = gen
+	}
+	genMu.Unlock()
+	rem := make([]int, k)
+	for _, d := range data {
+		fb := d ^ rem[0]
+		copy(rem, rem[1:])
+		rem[k-1] = 0
+		if fb != 0 {
+			for j := 0; j < k; j++ {
+				rem[j] ^= f.Mul(gen[j+1], fb)
+			}
+		}
+	}
+	return rem
+}
+
+// QRByteV1L returns the 19 data codewords of a version 1-L byte-mode symbol for a
+// content of at most 17 bytes (mode 0100, 8-bit count, data, terminator, pads).
+func QRByteV1L(content []byte) []int {
+	var bits []bool
+	add := func(v, n int) {
+		for i := n - 1; i >= 0; i-- {
+			bits = append(bits, v>>uint(i)&1 == 1)
+		}
+	}
+	add(4, 4)
+	add(len(content), 8)
+	for _, c := range content {
+		add(int(c), 8)
+	}
+	for i := 0; i < 4 && len(bits) < 19*8; i++ {
+		bits = append(bits, false)
+	}
+	for len(bits)%8 != 0 {
+		bits = append(bits, false)
+	}
+	pad := 0xEC
+	for len(bits) < 19*8 {
+		add(pad, 8)
+		pad ^= 0xEC ^ 0x11
+	}
+	out := make([]int, 19)
+	for i, b := range bits {
+		if b {
+			out[i/8] |= 0x80 >> uint(i%8)
+		}
+	}
+	return out
 }
